@@ -10,6 +10,8 @@ import sys
 
 name = sys.argv[1]
 ids = sys.argv[2:]
+# "Cxx Cxx" (same id twice) = two different changes for one property
+import glob
 wt = "/tmp/seed_" + name
 props = {}
 for l in open(os.path.join(os.path.dirname(os.path.dirname(os.path.abspath(__file__))), "properties.jsonl")):
@@ -63,6 +65,24 @@ For change k in 1..NCH write under WT/_seed/k/:
 
 Leave the worktree itself clean (`git checkout -- .`) at the end so that only `_seed/` remains as untracked
 content.  Your final message: a short summary of each change (what, what it needs to manifest).
+"""
+avoid = []
+for d in sorted(glob.glob(os.path.join(os.path.dirname(os.path.dirname(os.path.abspath(__file__))), "seeded", "*"))):
+    try:
+        m = json.load(open(os.path.join(d, "meta.json")))
+    except Exception:
+        continue
+    if set(m["breaks_property"]) & set(ids):
+        avoid.append("* " + m["needs_to_manifest"])
+if avoid:
+    task += """
+## Already tried by other engineers (do something DIFFERENT in kind: other code site, other trigger)
+
+""" + "\n".join(avoid) + "\n"
+if len(set(ids)) < len(ids):
+    task += """
+Note: the same property is listed more than once on purpose: deliver that many DIFFERENT changes for it
+(different code sites and different manifestation conditions).
 """
 task = task.replace("WT", wt).replace("PROPS", "\n\n".join(parts)).replace("NCH", str(len(ids)))
 with open(os.path.join(wt, "TASK.md"), "w") as f:
